@@ -1,6 +1,7 @@
 """gen_c11.py - translator plugin for C11 (facade totality).
 
-GENERATORS["FacadeConsts"] -> Generated/FacadeConsts.lean
+GENERATORS["FacadeConsts"] -> Generated/FacadeConsts.lean   (the five core key names + DEVICES: what `Req` depends on)
+GENERATORS["FacadeFacts"]  -> Generated/FacadeFacts.lean    (everything else; a change here does not rebuild the table obligations)
     the constants the facade consults (GeckoConstants.DEVICES / SENSORS / BINARY_SENSORS / WATERCARE_MODE_STRING / key names /
     device classes, the heater's class constants, GeckoReminderType.to_string for 0..7), read by IMPORTING the modules of the
     working tree, plus two syntactic facts read from the ast:
@@ -97,32 +98,35 @@ def _eager_sender_format():
     return False
 
 
-def gen_facade_consts():
+def _consts():
     try:
         C = _import("geckolib.const").GeckoConstants
         H = _import("geckolib.automation.heater").GeckoWaterHeater
         R = _import("geckolib.driver.protocol.reminders").GeckoReminderType
     except Exception as e:  # noqa
         raise Untranslatable(f"import of geckolib constants failed: {type(e).__name__}: {e}")
+    return C, H, R
+
+
+def _sdef(out, n, v):
+    if not isinstance(v, str):
+        raise Untranslatable(f"{n} is not a string: {v!r}")
+    out.append(f"def {n} : String := {_lstr(v)}")
+
+
+def _ndef(out, n, v):
+    if not isinstance(v, int) or isinstance(v, bool) or v < 0:
+        raise Untranslatable(f"{n} is not a natural number: {v!r}")
+    out.append(f"def {n} : Nat := {v}")
+
+
+def gen_facade_consts():
+    """what the REQUIREMENT on a profile depends on (imported by ~150 kernel-evaluated table obligations: keep it small)"""
+    C, _, _ = _consts()
     out = [T.HEADER, f"namespace {NS}.FacadeConsts\n"]
-
-    def sdef(n, v):
-        if not isinstance(v, str):
-            raise Untranslatable(f"{n} is not a string: {v!r}")
-        out.append(f"def {n} : String := {_lstr(v)}")
-
-    def ndef(n, v):
-        if not isinstance(v, int) or isinstance(v, bool) or v < 0:
-            raise Untranslatable(f"{n} is not a natural number: {v!r}")
-        out.append(f"def {n} : Nat := {v}")
     for n, a in (("keyTempUnits", "KEY_TEMP_UNITS"), ("keySetpointG", "KEY_SETPOINT_G"), ("keyRealSetpointG", "KEY_REAL_SETPOINT_G"),
-                 ("keyDisplayedTempG", "KEY_DISPLAYED_TEMP_G"), ("keyHeating", "KEY_HEATING"), ("keyCoolingDown", "KEY_COOLINGDOWN"),
-                 ("keyEconActive", "KEY_ECON_ACTIVE"), ("econDescription", "ECON_ACTIVE_DESCRIPTION"),
-                 ("classPump", "DEVICE_CLASS_PUMP"), ("classBlower", "DEVICE_CLASS_BLOWER"), ("classLight", "DEVICE_CLASS_LIGHT"),
-                 ("classSwitch", "DEVICE_CLASS_SWITCH"), ("boolType", "SPA_PACK_STRUCT_BOOL_TYPE"),
-                 ("opHeating", "WATER_HEATER_HEATING"), ("opCooling", "WATER_HEATER_COOLING"), ("opIdle", "WATER_HEATER_IDLE")):
-        sdef(n, getattr(C, a))
-    ndef("keypadEco", C.KEYPAD_ECOMODE)
+                 ("keyDisplayedTempG", "KEY_DISPLAYED_TEMP_G"), ("keyEconActive", "KEY_ECON_ACTIVE")):
+        _sdef(out, n, getattr(C, a))
     out.append("\n/-- GeckoConstants.DEVICES: id -> (description, keypad, structure key, class) -/")
     out.append("structure DevProps where\n  name : String\n  keypad : Nat\n  stateKey : String\n  cls : String\nderiving Repr, DecidableEq\n")
     rows = []
@@ -131,16 +135,30 @@ def gen_facade_consts():
             raise Untranslatable(f"DEVICES[{k!r}] has an unexpected shape")
         rows.append(f"  ({_lstr(k)}, ⟨{_lstr(v[0])}, {v[1]}, {_lstr(v[2])}, {_lstr(v[3])}⟩)")
     out.append("def devices : List (String × DevProps) := [\n" + ",\n".join(rows) + "]\n")
+    out.append(f"end {NS}.FacadeConsts\n")
+    return "\n".join(out)
+
+
+def gen_facade_facts():
+    """everything else the member model consults (not imported by the table obligations)"""
+    C, H, R = _consts()
+    out = [T.HEADER, f"namespace {NS}.FacadeConsts\n"]
+    for n, a in (("keyHeating", "KEY_HEATING"), ("keyCoolingDown", "KEY_COOLINGDOWN"), ("econDescription", "ECON_ACTIVE_DESCRIPTION"),
+                 ("classPump", "DEVICE_CLASS_PUMP"), ("classBlower", "DEVICE_CLASS_BLOWER"), ("classLight", "DEVICE_CLASS_LIGHT"),
+                 ("classSwitch", "DEVICE_CLASS_SWITCH"), ("boolType", "SPA_PACK_STRUCT_BOOL_TYPE"),
+                 ("opHeating", "WATER_HEATER_HEATING"), ("opCooling", "WATER_HEATER_COOLING"), ("opIdle", "WATER_HEATER_IDLE")):
+        _sdef(out, n, getattr(C, a))
+    _ndef(out, "keypadEco", C.KEYPAD_ECOMODE)
     out.append("/-- GeckoConstants.SENSORS: (name, key) -/\ndef sensors : List (String × String) := [" +
                ", ".join(f"({_lstr(a)}, {_lstr(b)})" for a, b in C.SENSORS) + "]")
     out.append("/-- GeckoConstants.BINARY_SENSORS: (name, key) (the class column is not used by the facade) -/\n"
                "def binarySensors : List (String × String) := [" + ", ".join(f"({_lstr(t[0])}, {_lstr(t[1])})" for t in C.BINARY_SENSORS) + "]")
     out.append(f"def watercareModes : List String := {_llist(list(C.WATERCARE_MODE_STRING))}")
     out.append("\n/-- GeckoWaterHeater class constants -/")
-    sdef("tempCelcius", H.TEMP_CELCIUS)
-    sdef("tempFarenheight", H.TEMP_FARENHEIGHT)
+    _sdef(out, "tempCelcius", H.TEMP_CELCIUS)
+    _sdef(out, "tempFarenheight", H.TEMP_FARENHEIGHT)
     for n in ("MIN_TEMP_C", "MAX_TEMP_C", "MIN_TEMP_F", "MAX_TEMP_F"):
-        ndef("heater_" + n, getattr(H, n))
+        _ndef(out, "heater_" + n, getattr(H, n))
     try:
         names = [R.to_string(i) for i in range(8)]
         invalid = int(R.INVALID)
@@ -148,7 +166,7 @@ def gen_facade_consts():
         raise Untranslatable(f"GeckoReminderType.to_string: {type(e).__name__}: {e}")
     out.append(f"\n/-- GeckoReminderType.to_string(i) for i = 0..7 (7 stands for every value the enumeration does not name) -/\n"
                f"def reminderNames : List String := {_llist(names)}")
-    ndef("reminderInvalid", invalid)
+    _ndef(out, "reminderInvalid", invalid)
     strict = _wc_guard()
     out.append("\n/-- GeckoWaterCare.__str__: the upper range guard is `active_mode > len(WATERCARE_MODE_STRING)` (true) or `>=` (false) -/\n"
                f"def wcGuardStrict : Bool := {'true' if strict else 'false'}")
@@ -323,5 +341,5 @@ def gen_combos():
     return out
 
 
-GENERATORS = {"FacadeConsts": gen_facade_consts}
+GENERATORS = {"FacadeConsts": gen_facade_consts, "FacadeFacts": gen_facade_facts}
 MULTI = {"C11Combos": gen_combos}
